@@ -203,6 +203,17 @@ def distinct_cases(tr):
     return out
 
 
+def names_in(tx):
+    """every account named anywhere in a transaction line, spelling normalised (U3 = A3; list tokens and key=value split)"""
+    out = set()
+    for w in re.split(r"[\s,=]+", tx["line"]):
+        if re.match(r"^[AU]\d+$", w):
+            out.add("A" + w[1:])
+        elif w:
+            out.add(w)
+    return out
+
+
 def addr_id(tok):
     """A3 and U3 are the same address"""
     return "A" + tok[1:] if tok.startswith("U") else tok
@@ -338,7 +349,7 @@ def o_c05(tr):
             if po["status"] == 4 and i in prev.po and prev.po[i]["status"] == 2:
                 a = addr_id(po["purchaser"])
                 dn = po["amount"][1]
-                touched = any(a in t["line"] for t in b["txs"])
+                touched = any(a in names_in(t) for t in b["txs"])
                 if not touched and d.spendable.get(a, {}).get(dn, 0) > prev.spendable.get(a, {}).get(dn, 0):
                     kind = "vesting" if prev.spendable.get(a, {}).get(dn, 0) < prev.bal.get(a, {}).get(dn, 0) else "base"
                     yield {"oracle": "spendable-increase", "signature": "purchaser=" + kind, "detail": "order %d purchaser %s" % (i, a)}
@@ -452,6 +463,28 @@ def o_c09(tr):
                         if n[f] != r[f]:
                             yield {"oracle": "registration-frozen", "signature": m + "." + f, "detail": str(i)}
             new = sorted(set(d.reg[m]) - set(prev.reg[m]))
+            # every new registration stores exactly what some successful registration message of this block submitted
+            subm = []
+            for tx in b["txs"]:
+                if tx["result"] != "ok":
+                    continue
+
+                def walk(t):
+                    k, args, subs = t
+                    if k == m + ".reg":  # the owner may be spelled in upper case (same address)
+                        subm.append(tuple(args[:-1]) + (addr_id(args[-1]),))
+                    for x in subs:
+                        walk(x)
+                for mm in split_msgs(tx["body"]):
+                    try:
+                        walk(parse_msg(mm, 0)[0])
+                    except (KeyError, ValueError, IndexError):
+                        pass
+            for i in new:
+                n = d.reg[m][i]
+                stored = (n["moniker"], n["name"]) + ((n["genesis"], n["type"]) if m == "wrk" else ()) + (addr_id(n["owner"]),)
+                if stored not in subm:
+                    yield {"oracle": "registration-stores-submitted", "signature": m, "detail": "%s %d stores %s; submitted in this block: %s" % (m, i, list(stored), [list(x) for x in subm][:6])}
             if new and new != list(range(prev.next[m], prev.next[m] + len(new))):
                 yield {"oracle": "ids-sequential", "signature": m, "detail": "%s from %d" % (new, prev.next[m])}
             if d.next[m] != prev.next[m] + len(new):
@@ -479,7 +512,7 @@ def o_c11(tr):
                 r, s = tx["body"][1], tx["body"][2]
                 st = prev.streams.get((addr_id(r), addr_id(s)))
                 # only when the stream was untouched earlier in this block
-                earlier = [t for t in b["txs"] if t is not tx and int(t["n"]) < int(tx["n"]) and addr_id(r) in t["line"] and addr_id(s) in t["line"] and any(k.startswith("str.") for k in t["kinds"])]
+                earlier = [t for t in b["txs"] if t is not tx and int(t["n"]) < int(tx["n"]) and addr_id(r) in names_in(t) and addr_id(s) in names_in(t) and any(k.startswith("str.") for k in t["kinds"])]
                 if st and not earlier and "0.total" in tx["fields"]:
                     total = int(tx["fields"]["0.total"])
                     now = b["time"]
@@ -847,6 +880,54 @@ def run_pure_oracles(pid, q, ans):
                 want = "%d.%09dfund" % (n // 10**9, n % 10**9)
                 if ans != want:
                     out.append({"oracle": "conversion-exact", "signature": "nund->fund", "detail": "%s gives %s, exact %s" % (amt, ans, want), "request": q})
+    if pid == "C18" and len(t) == 3 and t[:2] == ["parse", "str.stream"] and re.match(r"^([0-9a-f]{2})+$", t[2]):
+        # a well-formed stream key (prefix, length-prefixed receiver, length-prefixed sender, nothing after) must be
+        # reported with exactly the receiver and sender it was built from
+        b = bytes.fromhex(t[2])
+        if len(b) >= 4 and b[0] == 0x11 and b[1] >= 1 and len(b) > 2 + b[1]:
+            rl = b[1]; sl = b[2 + rl]
+            if sl >= 1 and len(b) == 3 + rl + sl:
+                want = b[2:2 + rl].hex() + " " + b[3 + rl:].hex()
+                if ans != want:
+                    out.append({"oracle": "stream-key-round-trip", "signature": "parse", "detail": "key %s built from receiver/sender %s is reported as %s" % (t[2], want, ans), "request": q})
+    if pid == "C18" and len(t) == 4 and t[:2] == ["key", "str.stream"] and all(re.match(r"^([0-9a-f]{2})+$", x) for x in t[2:]):
+        r, sn = bytes.fromhex(t[2]), bytes.fromhex(t[3])
+        if 1 <= len(r) <= 255 and 1 <= len(sn) <= 255:
+            want = (bytes([0x11, len(r)]) + r + bytes([len(sn)]) + sn).hex()
+            if ans != want:
+                out.append({"oracle": "stream-key-layout", "signature": "key", "detail": "key of %s/%s is %s, layout says %s" % (t[2], t[3], ans, want), "request": q})
+    if pid == "C16" and ans == "ok" and t:
+        # independent statement of the validity rules: a parameter structure the real Validate() accepts must satisfy them
+        DEN = r"^[a-zA-Z][a-zA-Z0-9/:._-]{2,127}$"
+        why = None
+        if t[0] == "entparams" and len(t) == 5:
+            ents = [] if t[4] == "-" else t[4].split(",")
+            if not re.match(DEN, t[1]): why = "denomination %r" % t[1]
+            elif int(t[2]) < 1: why = "min accepts 0"
+            elif int(t[3]) < 1: why = "decision limit 0"
+            elif not ents or any(not re.match(r"^[AU]\d+$", e) for e in ents): why = "malformed signer entry in %r" % t[4]
+            elif len(ents) < int(t[2]): why = "fewer signers than min accepts"
+        elif t[0] == "regparams" and len(t) == 8:
+            u = [int(x) for x in t[3:8]]
+            if not re.match(DEN, t[2]): why = "denomination %r" % t[2]
+            elif min(u) < 1: why = "zero fee or limit"
+            elif u[3] > u[4]: why = "default limit above maximum"
+        elif t[0] == "strparams" and len(t) == 2:
+            if not (0 <= int(t[1]) <= 10**18): why = "validator fee outside [0,1]"
+        if why:
+            out.append({"oracle": "params-valid", "signature": t[0], "detail": "Validate() accepts invalid parameters (%s): %s" % (why, q), "request": q})
+    if pid in ("C12", "C11") and len(t) == 6 and t[0] == "claim":
+        dep, rate = int(t[4]), int(t[5])
+        if rate >= 1 and 0 <= dep < (1 << 255):
+            if ans == "panic":
+                if pid == "C12":
+                    out.append({"oracle": "arithmetic-panic", "signature": "claim", "detail": "the amount to claim cannot be computed for a stream with positive rate: " + q, "request": q})
+            else:
+                a = ans.split()
+                if len(a) == 2 and re.match(r"^-?\d+$", a[0]) and re.match(r"^-?\d+$", a[1]):
+                    c, r = int(a[0]), int(a[1])
+                    if not (0 <= c <= dep and c + r == dep):
+                        out.append({"oracle": "claim-conserves-deposit", "signature": "claim", "detail": "claim %d + remaining %d of deposit %d: %s" % (c, r, dep, q), "request": q})
     if pid == "C12" and t and t[0] in ("valfee", "dur") and ans == "panic":
         if t[0] == "valfee" and 0 <= int(t[1]) <= 10**18 and int(t[2]) < (1 << 255):
             out.append({"oracle": "arithmetic-panic", "signature": "valfee", "detail": q, "request": q})
